@@ -2,7 +2,7 @@
 # usage: seed2_try.sh <id> <n> [check-id]   applies change n of round 2 to /repo, runs the check, reverts
 id=$1; n=$2; chk=${3:-$1}
 cd /verif
-git -C /repo apply /tmp/seed2/$id-out/patch$n.diff || { echo "$id/$n: patch does not apply to /repo"; exit 2; }
-bin/check $chk > /tmp/seed2/$id-out/check${n}_$chk.log 2>&1; rc=$?
+git -C /repo apply /tmp/seed${SEED_ROUND:-2}/$id-out/patch$n.diff || { echo "$id/$n: patch does not apply to /repo"; exit 2; }
+bin/check $chk > /tmp/seed${SEED_ROUND:-2}/$id-out/check${n}_$chk.log 2>&1; rc=$?
 git -C /repo checkout -- .
-echo "$id/$n via $chk: rc=$rc"; grep -E '^(VIOLATION|  key|INTERNAL)' /tmp/seed2/$id-out/check${n}_$chk.log | grep -v VIOLATION | cut -c1-220 | head -6
+echo "$id/$n via $chk: rc=$rc"; grep -E '^(VIOLATION|  key|INTERNAL)' /tmp/seed${SEED_ROUND:-2}/$id-out/check${n}_$chk.log | grep -v VIOLATION | cut -c1-220 | head -6
